@@ -78,7 +78,9 @@ def write_replay(prop, ctx, trace, verdict):
     evs = trace["events"]
     k = verdict["k"]
     ev = evs[k - 1]
-    if ev.get("from0"):
+    if trace.get("kind") == "solve":
+        keep = [ev]
+    elif ev.get("from0"):
         stop = max(i for i in range(k - 1) if evs[i]["op"] == "mark" or i == 0)
         keep = evs[: stop + 1] + [ev]
     else:
@@ -106,7 +108,10 @@ def conclude(prop, ctx, res, level="model_checking", rule="", clause_prefix=None
     for v in mine:
         tr = res.traces.get(v["tid"])
         ev = tr["events"][v["k"] - 1] if tr else None
-        pre = pre_state(tr, v["k"]) if tr else None
+        if tr and tr.get("kind") == "solve":
+            pre = ev["st"]
+        else:
+            pre = pre_state(tr, v["k"]) if tr else None
         hit = None
         for e in known:
             if e["property"] == prop and ev is not None and findings.match(e, v, ev, pre):
@@ -128,7 +133,9 @@ def conclude(prop, ctx, res, level="model_checking", rule="", clause_prefix=None
         if seen[key] > 2:      # at most two replay files per (clause, call) pair
             continue
         path = write_replay(prop, ctx, tr, v) if tr else "none"
-        lines.append("VIOLATION property=%s replay=%s clause=%s op=%s" % (prop, path, v["clause"], v["op"]))
+        lines.append("VIOLATION property=%s replay=%s clause=%s %s=%s%s" % (
+            prop, path, v["clause"], "component" if "phase" in v else "op", v["op"],
+            (" phase=" + v["phase"]) if v.get("phase") else ""))
     for key, n in sorted(seen.items()):
         if n > 2:
             lines.append("  (%d further violations of %s by %s not listed)" % (n - 2, key[0], key[1]))
